@@ -155,6 +155,12 @@ Added for the statistics formulas (C17; used only where an extractor asks for th
 
 String-valued functions (sorter_chrom, to_label) are read by a separate, equally narrow translator with its own stated
 reading rules: `harness/extractors/exprs_chromsort.py` (primitives in `lean/CnvVerif/Model/PyStr.lean`).
+* (round 4, for the level functions of cnvlib/segfilters.py; option `bare_columns`) a table column `tbl["name"]` (optionally `.values`) is
+  read elementwise as the parameter `name`; `np.zeros(n)` / `np.zeros_like(x)` is the number 0 and `pd.Series(x)` /
+  `np.asarray(x)` / `np.array(x)` is `x` (elementwise reading); a masked plain assignment `x[mask] = v`, the mask
+  being a comparison (or `&` / `|` / `~` of comparisons, or a name bound to one, with or without `.values`), means "where mask holds, x
+  becomes v" -- a later assignment overrides an earlier one where both masks hold, as in numpy; a comparison with a
+  missing value (NaN) is outside the reading (the theorems about these functions assume the columns present).
 """
 from __future__ import annotations
 
@@ -186,7 +192,8 @@ def _num_literal(e):
 
 class Fn:
     def __init__(self, fn: ast.FunctionDef, given=(), absent=(), default_on_raise=None, rename=None, callees=None,
-                 pieces=False, atoms=None, num="Rat", columns=False, sort_params=False):
+                 pieces=False, atoms=None, num="Rat", columns=False, sort_params=False, bare_columns=False):
+        self.bare_columns = bare_columns   # read `tbl["name"]` as the parameter `name`, masks built with | & ~ (C14 level functions)
         self.pieces = pieces          # the additional reading rules for pieces of larger functions
         self.atoms = atoms or {}      # verbatim source text -> parameter name (elementwise reading)
         self.num = num                # "Rat" | "Int"
@@ -325,6 +332,10 @@ class Fn:
             # elementwise reading of `array[mask]`
             if isinstance(e.value, ast.Name) and isinstance(e.slice, ast.Name):
                 return self.expr(e.value, env)
+            # a table column, read elementwise: `tbl["name"]`
+            if self.bare_columns and isinstance(e.value, ast.Name) and isinstance(e.slice, ast.Constant) and isinstance(e.slice.value, str) \
+                    and e.slice.value.isidentifier() and e.value.id not in env:
+                return self.param(e.slice.value)
             if self.columns and isinstance(e.value, ast.Name) and isinstance(e.slice, ast.Constant) \
                     and isinstance(e.slice.value, str) and e.slice.value.isidentifier():
                 return self.param("col_" + e.slice.value)
@@ -333,6 +344,8 @@ class Fn:
                     and isinstance(e.slice.value, str) and e.slice.value.isidentifier():
                 return self.param(e.value.id + "_" + e.slice.value, base=e.value.id)
             raise Untranslatable("subscript " + ast.unparse(e))
+        if isinstance(e, ast.Attribute) and e.attr == "values" and isinstance(e.value, ast.Subscript):
+            return self.expr(e.value, env)
         if isinstance(e, ast.UnaryOp):
             if isinstance(e.op, ast.USub):
                 return f"(-{self.expr(e.operand, env)})"
@@ -411,6 +424,10 @@ class Fn:
                 return f"(-{self.expr(args[0], env)})"
             if f == "np.where" and len(args) == 3:
                 return f"(if {self.cond(args[0], env)} then {self.expr(args[1], env)} else {self.expr(args[2], env)})"
+            if f in ("np.zeros", "np.zeros_like") and len(args) == 1 and not e.keywords:
+                return "(0 : Rat)"   # elementwise reading of a fresh all-zero vector
+            if f in ("pd.Series", "np.asarray", "np.array") and len(args) == 1 and not e.keywords:
+                return self.expr(args[0], env)
             if f == "len" and len(args) == 1 and isinstance(args[0], ast.Name):
                 return self.param(args[0].id + "_len")
             if f in ("math.ceil", "np.ceil") and len(args) == 1:
@@ -523,6 +540,13 @@ class Fn:
             if inner in ("True", "False"):
                 return "False" if inner == "True" else "True"
             return f"(¬ {inner})"
+        if self.bare_columns and isinstance(e, ast.UnaryOp) and isinstance(e.op, ast.Invert):
+            return f"(¬ {self.cond(e.operand, env)})"
+        if self.bare_columns and isinstance(e, ast.Attribute) and e.attr == "values":
+            return self.cond(e.value, env)   # `mask.values`: the same mask, elementwise
+        if self.bare_columns and isinstance(e, ast.BinOp) and isinstance(e.op, (ast.BitOr, ast.BitAnd)):
+            op = " ∨ " if isinstance(e.op, ast.BitOr) else " ∧ "
+            return "(" + self.cond(e.left, env) + op + self.cond(e.right, env) + ")"
         if isinstance(e, ast.Compare):
             parts = []
             left = e.left
@@ -591,6 +615,13 @@ class Fn:
                     return self.block(rest, env)
                 env = dict(env)
                 env[t.id] = self.expr(s.value, env)
+                return self.block(rest, env)
+            if self.bare_columns and isinstance(t, ast.Subscript) and isinstance(t.value, ast.Name) and t.value.id in env \
+                    and isinstance(t.slice, (ast.Compare, ast.BoolOp, ast.BinOp, ast.UnaryOp, ast.Name, ast.Attribute)):
+                # masked plain assignment `x[mask] = v`: where the mask holds, x becomes v
+                c = self.cond(t.slice, env)
+                env = dict(env)
+                env[t.value.id] = f"(if {c} then {self.expr(s.value, env)} else {env[t.value.id]})"
                 return self.block(rest, env)
             if isinstance(t, ast.Subscript) and isinstance(t.value, ast.Name) and isinstance(t.slice, ast.Name):
                 mask = env.get(t.slice.id, "")
